@@ -57,6 +57,17 @@ type c18Voids struct {
 	After   string   `xml:"after" json:"after"`
 }
 
+// c18Custom is a validator installed by assignment to binding.Validator
+type c18Custom struct{ calls int }
+
+func (v *c18Custom) Validate(obj any) error {
+	v.calls++
+	if val := validate.Struct(obj); !val.Validate() {
+		return val.Errors
+	}
+	return nil
+}
+
 type c18Rule struct {
 	XMLName xml.Name `xml:"r" json:"-" query:"-" form:"-"`
 	Age     int      `query:"age" form:"age" json:"age" xml:"age" validate:"min:1|max:99"`
@@ -91,6 +102,11 @@ type c18Case struct {
 
 func c18Gen(tier string, emit func(c18Case)) {
 	for _, m := range c18Methods {
+		emit(c18Case{Kind: "table", Method: m})
+	}
+	// method tokens outside the nine standard ones (extension methods, other spellings, empty): none of them is POST, PUT
+	// or PATCH, so the query string is the source
+	for _, m := range []string{"PURGE", "PROPFIND", "SEARCH", "LINK", "post", "Patch", "pUT", "", "POSTS", "GET "} {
 		emit(c18Case{Kind: "table", Method: m})
 	}
 	emit(c18Case{Kind: "tags", MaxLen: map[string]int{"quick": 3, "thorough": 4}[tier]})
@@ -241,7 +257,12 @@ func c18Run(c c18Case, st *fw.Stats) []fw.Viol {
 				default:
 					body = "name=F"
 				}
-				req := httptest.NewRequest(c.Method, target, strings.NewReader(body))
+				standard := false
+				for _, m := range c18Methods {
+					standard = standard || m == c.Method
+				}
+				req := httptest.NewRequest("POST", target, strings.NewReader(body))
+				req.Method = c.Method
 				if ct != "" {
 					req.Header.Set("Content-Type", ct)
 				}
@@ -252,6 +273,10 @@ func c18Run(c c18Case, st *fw.Stats) []fw.Viol {
 				entry := entries[(len(ct)+b2i(withQuery))%len(entries)]
 				if ct == "" || strings.Contains(ct, "json") || strings.Contains(ct, "form") {
 					entry = entries[(len(c.Method)+len(ct)+b2i(withQuery))%len(entries)]
+				}
+				if !standard {
+					// no route can be registered for such a method: the package-level entry points only
+					entry = entries[(len(ct)+b2i(withQuery))%2]
 				}
 				pv := try(func() {
 					switch entry {
@@ -429,13 +454,44 @@ func c18Run(c c18Case, st *fw.Stats) []fw.Viol {
 		if c.Format == "query" {
 			method = "GET"
 		}
-		for _, on := range []bool{true, false} {
-			if on {
-				binding.ResetValidator()
-			} else {
-				binding.DisableValidator()
+		// every history of <= 3 operations on the package's validator switch; what counts is the state it leaves:
+		// a validator is enabled <=> binding.Validator is non-nil
+		var hists [][]string
+		var recH func(cur []string)
+		recH = func(cur []string) {
+			if len(cur) > 0 {
+				hists = append(hists, append([]string(nil), cur...))
 			}
-			for _, age := range []int{-1, 0, 1, 50, 99, 100} {
+			if len(cur) == 3 {
+				return
+			}
+			for _, op := range []string{"Reset", "Disable", "assign-custom", "assign-nil"} {
+				recH(append(cur, op))
+			}
+		}
+		recH(nil)
+		defer binding.ResetValidator()
+		for _, hist := range hists {
+			custom := &c18Custom{}
+			for _, op := range hist {
+				switch op {
+				case "Reset":
+					binding.ResetValidator()
+				case "Disable":
+					binding.DisableValidator()
+				case "assign-custom":
+					binding.Validator = custom
+				case "assign-nil":
+					binding.Validator = nil
+				}
+			}
+			last := hist[len(hist)-1]
+			on := last == "Reset" || last == "assign-custom"
+			ages := []int{-1, 0, 1, 50, 99, 100}
+			if len(hist) > 1 {
+				ages = []int{0, 50, 100} // the full value grid runs on the one-operation histories
+			}
+			for _, age := range ages {
 				for _, name := range []string{"", "a", "ab", "abc"} {
 					st.Evals++
 					st.Nontrivial++
@@ -449,10 +505,10 @@ func c18Run(c c18Case, st *fw.Stats) []fw.Viol {
 					}
 					valid := validate.Struct(&c18Rule{Age: got.Age, Name: got.Name}).Validate()
 					if on && err == nil && !valid {
-						add("validator:bind-succeeded-on-invalid", fmt.Sprintf("%s, validator enabled: binding %+v succeeded although an independent validation of the bound struct fails", c.Format, got))
+						add("validator:bind-succeeded-on-invalid", fmt.Sprintf("%s, validator enabled (switch history %v): binding %+v succeeded although an independent validation of the bound struct fails", c.Format, hist, got))
 					}
 					if !on && err != nil {
-						add("validator:error-while-disabled", fmt.Sprintf("%s, validator disabled: binding %+v failed: %v", c.Format, want, err))
+						add("validator:error-while-disabled", fmt.Sprintf("%s, validator disabled (switch history %v): binding %+v failed: %v", c.Format, hist, want, err))
 					}
 					if on && err != nil && valid && got.Age == age && got.Name == name {
 						add("validator:rejected-valid", fmt.Sprintf("%s, validator enabled: binding valid %+v failed: %v", c.Format, want, err))
@@ -571,7 +627,7 @@ var c18Spec = fw.Spec[c18Case]{
 	ID:      "C18",
 	Level:   "model_checking",
 	Workers: 1,
-	Rule: "complete enumeration: decision table 9 methods x 22 Content-Type strings (the unsupported ones include sub-types spelled like registered binder names) x query present/absent, every source carrying a different value; all sequences of <=3 (thorough 4) binds over 6 sources of a struct whose field has a different name in every source's tag; round trip of all values of a struct over int{0,1,-7,2^31} x 9 strings (unicode, separators, markup, quotes) x bool x 4 int slices through query / urlencoded / multipart / JSON / XML; all byte strings of length <=4 (thorough 5) over 14 bytes as body per format (must not panic; malformed JSON/XML must yield an error); validator on/off x 24 values on both sides of each rule; " +
+	Rule: "complete enumeration: decision table 19 method tokens (the nine standard ones, extension methods, other spellings, empty) x 22 Content-Type strings (the unsupported ones include sub-types spelled like registered binder names) x query present/absent, every source carrying a different value; all sequences of <=3 (thorough 4) binds over 6 sources of a struct whose field has a different name in every source's tag; round trip of all values of a struct over int{0,1,-7,2^31} x 9 strings (unicode, separators, markup, quotes) x bool x 4 int slices through query / urlencoded / multipart / JSON / XML; all byte strings of length <=4 (thorough 5) over 14 bytes as body per format (must not panic; malformed JSON/XML must yield an error); validator on/off reached through every history of <=3 switch operations {ResetValidator, DisableValidator, assign a custom validator, assign nil} x values on both sides of each rule; " +
 		"non-trivial = a table row / a round-tripped value / a malformed body",
 	Assume: []string{"media types that merely contain a canonical subtype as a substring (application/jsonp) are outside the alphabet", "runs single-threaded: the validator switch is package-global", "encoding/json and encoding/xml decide what 'malformed' means"},
 	Bounds: func(tier string) map[string]any {
